@@ -170,16 +170,13 @@ def opSgfPl (a : Args) : Except String String := do
     s!"bin={showBool (rows.all fun r => decide (r.y ≤ 1))}")
 
 /-- the definition regenerated from the text of `SurvivalGFormula.fit` (`Gen.survgf_fit`), run on the prepared table
-    (the harness sends the complete records already sorted by (id, time), with the weight column aligned):
-    `predicted_df[outcome]` and `marginal_outcome` at the observed times -/
+    (the harness sends the complete records already sorted by (id, time)): `predicted_df[outcome]` and
+    `marginal_outcome` at the observed times -/
 def opSgfGen (a : Args) : Except String String := do
   let rows ← longRows a
   let plan ← need a "treatment" some
-  let hw ← need a "hasw" parseBool
-  let wl ← match a.get? "w" with | some _ => rts a "w" | none => pure []
   if SurvGF.prep rows != rows then throw "bad-arg:not-prepared" else
-  if hw && wl.length ≠ rows.length then throw "bad-arg:shape" else
-  let out := Gen.survgf_fit (F := Rat) plan hw (fun b r => if b then r.h1 else r.h0) wl rows
+  let out := Gen.survgf_fit (F := Rat) plan (fun b r => if b then r.h1 else r.h0) rows
   let tm := SurvGF.times rows
   pure (s!"ok ci={showList showRat out.2} times={showList toString tm} marg={showList showRat (tm.map out.1)}")
 
